@@ -39,7 +39,7 @@ def vocabulary(tier: str) -> List[Tuple[tuple, tuple]]:
             for a in ip4:
                 add("addr", n, 1, c, (a, None), (a, None))
             for a in ip6:
-                for sc in (None, 1, 2):
+                for sc in (None, 0, 1, 2):  # 0 is what the socket layer reports for an unscoped source: distinct from None
                     add("addr", n, 28, c, (a, sc), (a, sc))
             add("addr", n, 28, c, (ip4[0], None), (ip4[0], None))  # odd but constructible: AAAA with 4 bytes
             for t in (12, 5):
